@@ -118,6 +118,7 @@ impl<'de, R: Reader<'de>> Parser<R> {
         ensures final(self).pinv(), final(self).same_doc(old(self)),
             // for a checked reader (idx <= len): Ok iff only whitespace is left
             res.is_ok() <==> ws_end(old(self).read.data(), old(self).read.idx() as int) == old(self).read.data().len(),
+            res.is_err() ==> res.unwrap_err().has_pos,
 //@before /let exceed =/ #1
         proof { lemma_ws_end_bounds(self.read.data(), self.read.idx() as int); }
 //@before /let last =/
